@@ -60,6 +60,66 @@ def star(f, K):
 `)
 }
 
+var zzC05Prog *Program
+
+const zzC05ProgSrc = `
+def f(a):
+    t = [a]
+    for i in [1, 2]:
+        t.append(i // d)
+    return t
+x = f(3)
+y = {"k": x, "f": f}
+z = [e for e in x if e] + sorted(x)
+`
+
+func init() {
+	opts := &syntax.FileOptions{Set: true, GlobalReassign: true}
+	_, prog, err := SourceProgramOptions(opts, "p.star", zzC05ProgSrc, func(name string) bool { return name == "d" })
+	if err != nil {
+		panic("zzC05Prog: " + err.Error())
+	}
+	zzC05Prog = prog
+}
+
+// zzH05_programInit: one compiled *Program initialised (and thereby run) by several
+// threads, including a failing execution that builds a backtrace and so decodes the
+// shared position tables: nothing reachable from the Program is written outside sync.Once.
+//
+//verif:unwind 100
+func zzH05_programInit() {
+	d := 1
+	if zzBool("divide_by_zero") {
+		d = 0
+	}
+	second := zzBool("second_use") // the program was already initialised (and failed) once before
+	if second {
+		th := &Thread{Name: "first"}
+		zzC05Prog.Init(th, StringDict{"d": MakeInt(d)})
+	}
+	run := func(fp *zzFP) {
+		th := &Thread{Name: "w"}
+		g, err := zzC05Prog.Init(th, StringDict{"d": MakeInt(d)})
+		fp.err(err)
+		if ee, ok := err.(*EvalError); ok {
+			fp.str(ee.Backtrace())
+			fp.add(int64(len(ee.CallStack)))
+		}
+		g.Freeze()
+		for _, name := range g.Keys() {
+			fp.str(name)
+			fp.val(g[name])
+		}
+		fp.add(int64(zzC05Prog.NumLoads()))
+		fp.str(zzC05Prog.Filename())
+	}
+	writes, agree := zzC05Run(run, zzC05Prog, Universe, listMethods, dictMethods, setMethods)
+	zzObserve("writes", writes)
+	zzAssert(writes == 0, "C05.program.no_shared_write")
+	zzAssert(agree, "C05.program.same_results_as_solo")
+	zzReach("end")
+}
+
 // zzFP is a result fingerprint: a sequence of numbers (symbolic values allowed).
 type zzFP struct{ v []int64 }
 
@@ -135,15 +195,11 @@ func zzFPEq(a, b *zzFP) bool {
 // zzC05Run runs op under the write log (engine) or solo + twice concurrently (native).
 // It returns the number of logged writes into roots and whether all runs agreed.
 func zzC05Run(op func(fp *zzFP), roots ...any) (writes int, agree bool) {
-	solo := &zzFP{}
-	zzWriteLogStart()
-	op(solo)
-	zzWriteLogStop()
-	writes = zzWritesInto(roots...)
-	agree = true
+	var r [2]*zzFP
 	if !zzSymbolic() {
+		// native: the concurrent pair goes first, so that a lazily initialised cache
+		// (first use writes, later uses only read) is caught as well
 		var wg sync.WaitGroup
-		var r [2]*zzFP
 		for i := 0; i < 2; i++ {
 			wg.Add(1)
 			go func(i int) {
@@ -153,6 +209,14 @@ func zzC05Run(op func(fp *zzFP), roots ...any) (writes int, agree bool) {
 			}(i)
 		}
 		wg.Wait()
+	}
+	solo := &zzFP{}
+	zzWriteLogStart()
+	op(solo)
+	zzWriteLogStop()
+	writes = zzWritesInto(roots...)
+	agree = true
+	if !zzSymbolic() {
 		agree = zzFPEq(solo, r[0]) && zzFPEq(solo, r[1])
 	}
 	return
